@@ -192,6 +192,62 @@ def _w2(a):
     return _safe(eval_expr_case, a)
 
 
+# ---- condition negation as the control-flow rules use it (swap_if_else, early_continue): executed programs
+NEG_CONDS = ["0 < x <= y", "x < y < 2", "0 <= x < 3", "x == y == 0", "x != y != 1", "-1 < x < y <= 2", "x < 1", "x >= y", "x == 1", "x != y", "x < 0 or y > 1", "x < 0 and y > 1", "not x < 2",
+             "not (x < 0 or y > 1)", "0 < x < 3 and y != 0", "x < y <= 2 or x == 0", "not 0 < x < 3", "x in (1, 2)", "x not in (0, y)", "x is y", "(x < y) == (y < 1)", "x < 0 < y or y < 0 < x"]
+NEG_FRAMES = [
+    "def f(x, y):\n    if {c}:\n        pass\n    else:\n        return 'else'\n    return 'body'\n",
+    "def f(x, y):\n    if {c}:\n        v = 1\n    else:\n        v = 2\n        v += x\n        v += y\n        v *= 2\n        v -= 1\n    return v\n",
+    "def f(x, y):\n    out = []\n    for k in (x, y, x + y):\n        if {c}:\n            out.append(k)\n            out.append(x)\n            out.append(y)\n            out.append(k + 1)\n    return out\n",
+    "def f(x, y):\n    out = []\n    for k in (x, y):\n        if {c}:\n            continue\n        else:\n            out.append(k)\n            out.append(x)\n            out.append(y)\n    return out\n",
+    "def f(x, y):\n    while True:\n        if {c}:\n            return 'a'\n        else:\n            x += 1\n            y -= 1\n            if x > 6:\n                return 'b'\n",
+]
+NEG_RULES = ["fixes.swap_if_else", "fixes.early_continue", "fixes.early_return", "fixes.remove_redundant_else", "format_code"]
+
+
+def _w3(args):
+    import pyrefact
+    from pyrefact import logs
+    logs.set_level(100)
+    frame, cond = args
+    src = frame.format(c=cond)
+    fails = []
+
+    def table(text):
+        ns = {}
+        exec(compile(text, "<p>", "exec"), ns)   # noqa: S102
+        f = [v for k, v in ns.items() if callable(v) and not k.startswith("__")][0]
+        out = []
+        for x, y in itertools.product(range(-2, 4), repeat=2):
+            try:
+                out.append(repr(f(x, y)))
+            except Exception as ex:  # noqa: BLE001
+                out.append("raises " + type(ex).__name__)
+        return out
+    try:
+        want = table(src)
+    except Exception as ex:  # noqa: BLE001
+        return [{"harness_error": repr(ex)}]
+    for rule in NEG_RULES:
+        try:
+            out = pyrefact.format_code(src, preserve={"f"}) if rule == "format_code" else _get(rule)(src)
+        except Exception as ex:  # noqa: BLE001
+            fails.append({"rule": rule, "cls": f"{rule}:raises:{type(ex).__name__}", "what": f"{rule} raised {type(ex).__name__} on {src!r}"})
+            continue
+        if out == src:
+            continue
+        try:
+            got = table(out)
+        except Exception as ex:  # noqa: BLE001
+            fails.append({"rule": rule, "cls": f"{rule}:invalid", "what": f"{rule}: result does not run ({type(ex).__name__}): {out!r}"})
+            continue
+        if got != want:
+            k = next(i for i, (a, b) in enumerate(zip(want, got)) if a != b)
+            x, y = list(itertools.product(range(-2, 4), repeat=2))[k]
+            fails.append({"rule": rule, "cls": f"{rule}:negation-changes-value", "what": f"{rule}: with (x, y) = ({x}, {y}) the function returned {want[k]} before and {got[k]} after; result {out!r}"})
+    return fails
+
+
 def run(tier, seed):
     fs, n_exh = formulas(tier, seed)
     ctx = mp.get_context("fork")
@@ -199,8 +255,12 @@ def run(tier, seed):
         r1 = pool.map(_w1, fs, chunksize=100)
         rc = [("range", e) for e in range_cases(tier, seed)] + [("sum", e) for e in sum_cases()]
         r2 = pool.map(_w2, rc, chunksize=20)
+        neg = [(fr, c) for fr in NEG_FRAMES for c in NEG_CONDS]
+        r3 = pool.map(_w3, neg, chunksize=2)
     out = []
     for name, inputs, results, space in (
+            ("c17-negation-executed", [fr.format(c=c) for fr, c in neg], r3, f"{len(NEG_FRAMES)} program frames (if/else with an empty or short branch, loops with a large if body, continue, while-true) x {len(NEG_CONDS)} conditions "
+             f"(single and CHAINED comparisons, and / or / not, in, is) through {NEG_RULES}; executed for all (x, y) in [-2, 3]^2"),
             ("c17-boolean-truth-table", fs, r1, f"all ordered pairs of atoms `x op k` / `k op x` (op in {OPS}, k in {CONSTS}) under and/or = {n_exh} formulas exhaustively, all negated atoms, plus {len(fs) - n_exh - 120} seeded formulas of 3-4 atoms over x, y with not/and/or nesting; every valuation in [-4, 4]^k; rules {RULES}"),
             ("c17-range-and-sum", [e for _, e in rc], r2, "range comprehensions over constant / symbolic bounds, steps {1,2,-1}, one or two filters; sum(...) closed forms; symbolic n in [-2, 6]; rules " + str(RANGE_RULES + SUM_RULES))):
         failures, errors, per_cls = [], [], {}
